@@ -47,6 +47,7 @@ var props = []propSpec{
 			{Name: "HarnessC13MinNative", Bounds: "12 Go numeric kinds; |value| <= 2^53, bound any non-NaN float64 in [-2^53, 2^53]; exclusive symbolic"},
 			{Name: "HarnessC13Validators", Bounds: "minimum/maximum (inclusive/exclusive, bounds picked from {-3,0,2,2.5,100}) through NewSchemaValidator and NewParamValidator with a fully symbolic value of each of the 12 Go numeric kinds"},
 			{Name: "HarnessC13MultipleOfValidators", Bounds: "multipleOf (factor in {1,2,3,0.5,1.5}) through NewSchemaValidator and MultipleOfNativeType with picked values in each of the 10 integer kinds"},
+			{Name: "HarnessC13Float32", Bounds: "float32 carriers 0.1, 0.7, 2.3, 0.001, 16777.215, 0.5 against a bound equal to their exact value or one of its float64 neighbours; helpers, schema validation, parameter validation"},
 			{Name: "HarnessC13HugeBounds", Bounds: "maximum / minimum (inclusive / exclusive) picked from {1e30, -1e30, 9.3e18, -9.3e18, 1.85e19, 1e19} (beyond int64, some beyond uint64) against fully symbolic int64, int8, uint64, uint8 values; oracle in integer arithmetic; helpers and schema validation"},
 			{Name: "HarnessC13MultipleOfDecimal", Bounds: "multipleOf on decimal fractions (<= 6 fractional digits): 11 values x sign x 7 factors, oracle = exact arithmetic on the values scaled by 10^6; helper, schema validation, parameter validation"},
 			{Name: "HarnessC13JSONNumber", Bounds: "json.Number carriers (integer literals from 7 picks incl. ±(2^53-1), fractional literals from 4 picks incl. \"3.0\") vs the float64 carrying the same number, maximum from 4 picks, type absent / number / integer"},
@@ -66,6 +67,7 @@ var props = []propSpec{
 			{Name: "HarnessC01UniqueComposite", Bounds: "uniqueItems over 2 composite items drawn from 10 arrays/objects whose textual renderings coincide pairwise, plus an optional scalar"},
 			{Name: "HarnessC01Object", Bounds: "properties{a:L3} + one of 12 features (second property, patternProperties, additionalProperties true/false/L3, required, min/maxProperties picks, dependencies property/schema, type); members a, ab, b, c with forked presence", BoundsThorough: "two features combined"},
 			{Name: "HarnessC01ObjectSpecials", Bounds: "additionalProperties:false with members drawn from {a (declared), id, $schema, x, ids}; required [a, b] where the property a carries a default, members a / b present or absent"},
+			{Name: "HarnessC01StringComposition", Bounds: "oneOf / anyOf / allOf of 2 (thorough: 2-3) string leaves drawn from {plain, format date, maxLength 3, format date + minLength 2} in every order; instance a number or one of 3 strings; format answers symbolic through the registry stub"},
 			{Name: "HarnessC01Composition", Bounds: "allOf/anyOf/oneOf of 1-2 leaves of L6 (15 variants), not L6; instance scalar / [] / {}", BoundsThorough: "1-3 leaves"},
 			{Name: "HarnessC01Nested", ThoroughOnly: true, Bounds: "depth 2-3 nestings: object->array->object, array->object(patternProperties)->array, allOf[object, anyOf[...]], oneOf of array schemas next to not"},
 			{Name: "HarnessC01Enum", Bounds: "enum of 1-2 values from scalars, [num], {a:num}; instance likewise"},
